@@ -89,9 +89,9 @@ Proof.
   specialize (H Hinv ltac:(lia)).
   assert (Hpre : forall i, i < len -> fst (at_ i) <= v ->
             forall b, In b (firstn (N.to_nat i) l) -> snd b + 1 < v).
-  { intros i Hi Hv b Hb. apply (In_nth _ _ d0) in Hb. destruct Hb as (n & Hn & <-).
+  { intros i Hi Hv b Hb. apply (In_nth _ _ d0) in Hb. destruct Hb as (m & Hn & <-).
     rewrite firstn_length in Hn. rewrite nth_firstn_lt by lia.
-    pose proof (wf_nth_lt emax l n (N.to_nat i) Hwf ltac:(lia) ltac:(lia)). lia. }
+    pose proof (wf_nth_lt emax l m (N.to_nat i) Hwf ltac:(lia) ltac:(lia)). lia. }
   assert (Hmem : forall i, i < len -> fst (at_ i) <= v <= snd (at_ i) -> mem v l).
   { intros i Hi Hv. exists (at_ i). split; [apply nth_In; lia|assumption]. }
   destruct (bs_loop (length l) l v len 0) as [mid|b].
@@ -101,19 +101,20 @@ Proof.
     pose proof (cmp_ival_spec (at_ b) v (wf_nth_valid emax l (N.to_nat b) Hwf ltac:(lia))) as Hc.
     replace (0, 0) with d0 by reflexivity.
     assert (Hnot : ~ (fst (at_ b) <= v <= snd (at_ b)) -> ~ mem v l).
-    { intros Hn (i & Hi & Hv). apply (In_nth _ _ d0) in Hi. destruct Hi as (n & Hn' & <-).
-      destruct (Nat.lt_trichotomy n (N.to_nat b)) as [Hlt|[->|Hgt]].
-      - pose proof (wf_nth_lt emax l n (N.to_nat b) Hwf Hlt ltac:(lia)).
+    { intros Hn (i & Hi & Hv). apply (In_nth _ _ d0) in Hi. destruct Hi as (m & Hn' & <-).
+      destruct (Nat.lt_trichotomy m (N.to_nat b)) as [Hlt|[->|Hgt]].
+      - pose proof (wf_nth_lt emax l m (N.to_nat b) Hwf Hlt ltac:(lia)).
         pose proof (wf_nth_valid emax l (N.to_nat b) Hwf ltac:(lia)).
         destruct Hlo as [->|Hlo]; [lia|]. lia.
       - tauto.
-      - specialize (Hhi (N.of_nat n) ltac:(lia) ltac:(lia)). rewrite Nat2N.id in Hhi. lia. }
+      - specialize (Hhi (N.of_nat m) ltac:(lia) ltac:(lia)). rewrite Nat2N.id in Hhi. lia. }
     split; [assumption|].
     destruct (cmp_ival_value (at_ b) v).
     + split; [split; [intros _; eauto|reflexivity]|]. apply Hpre; [assumption|lia].
     + split; [split; [discriminate|intros Hm; exfalso; revert Hm; apply Hnot; lia]|].
       apply Hpre; [assumption|]. pose proof (wf_nth_valid emax l (N.to_nat b) Hwf ltac:(lia)). lia.
     + split; [split; [discriminate|intros Hm; exfalso; revert Hm; apply Hnot; lia]|].
+      pose proof (wf_nth_valid emax l (N.to_nat b) Hwf ltac:(lia)).
       destruct Hlo as [->|Hlo]; [intros b' []|lia].
 Qed.
 
